@@ -11,7 +11,7 @@ def blank(cid, op):
     return {"id": cid, "op": op, "spin": False, "model": [], "den": 1, "K": [], "raised": "", "raise_ok": False, "unchanged": True,
             "rtype": "", "expect_type": "", "result": [], "result_spin": False, "map": [], "table": [], "tree": ["L", "x"],
             "lo": 0, "hi": 0, "t0_ge_tf": True, "tf_ge_0": True, "novars": False, "zero_zero": True, "vals": [], "nodes": [],
-            "norm_value": 1}
+            "norm_value": 1, "model_c": [], "lo2": [0, 0], "hi2": [0, 0]}
 
 
 BOOL_KINDS = ["dict", "QUBO", "PUBO", "PCBO", "QUBOMatrix", "PUBOMatrix"]
